@@ -65,6 +65,18 @@ def run(ctx):
         shutil.rmtree(tmpdir, ignore_errors=True)
 
 
+def ds_name(ds):
+    return zoo.dec_name(ds)
+
+
+def special(cs):
+    """non-square or minimal lattice (twins of such count as well)"""
+    if cs[0] == 'twin':
+        return special(cs[1][0])
+    a = cs[1]
+    return len(a) == 2 and (a[0] != a[1] or a == tuple(zoo.sizes(cs[0], True)[0]))
+
+
 def _run(ctx, pt, rng, quick, cap, tmpdir):
     jobs = []
     meta = {}      # job id -> (family, code_spec, dec_spec, errors, contexts, mode)
@@ -131,11 +143,53 @@ def _run(ctx, pt, rng, quick, cap, tmpdir):
                      'contexts': [(('DepolarizingErrorModel', ()), 0.1)] * len(es)})
         meta[jid] = ('planar', cs, ('PlanarCMWPMDecoder', (3, 0, 't', 4)), 'known-F5', 'any')
 
-    results = zoo.run_pool(zoo.run_decode_job, jobs)
+    # ---- operation histories: ONE decoder object per class and parameter set over all small codes (c02_reuse) ----
+    from harness import c02_reuse as cr
+    streams, _ = cr.build_streams(ctx, tmpdir, context_pool)
+    sjobs = [{'id': 's%d' % i, 'decoder': st['decoder'], 'items': st['items'], 'scribble': True} for i, st in enumerate(streams)]
+    # the streams first (each is sequential by nature), then the fresh-object jobs, in one pool
+    import time
+    t0 = time.time()
+    allres = zoo.run_pool(cr.run_any, sjobs + jobs)
+    ctx.extra.setdefault('phase_seconds', {})['main+reuse pool'] = round(time.time() - t0, 1)
+    sres, results = allres[:len(sjobs)], list(allres[len(sjobs):])
+    # a stream's results regrouped per (code, mode, domain), stream order kept, and evaluated like the fresh-object jobs
+    for h, (st, res) in enumerate(zip(streams, sres)):
+        ds = st['decoder']
+        if res.get('ctor_error') or len(res['results']) != len(st['items']):
+            ctx.violation('constructor', '%s: decoder constructor raised on parameters of its documented domain: %s'
+                          % (zoo.dec_name(ds), res.get('ctor_error')), {'decoder': list(ds)})
+            continue
+        groups = {}
+        for pos, ((cs, es, c, fresh), tag, r) in enumerate(zip(st['items'], st['tags'], res['results'])):
+            groups.setdefault((cs,) + tag, []).append((pos, es, c, r))
+        for (cs, mode, dom), lst in groups.items():
+            if cs not in codes:
+                code = cr.make_code(cs)
+                codes[cs] = (code, code.n_k_d[0], cr.code_name(cs), zoo.stab_letter_codes(code.stabilizers))
+                mat_lines.append('mat %s %s' % (cr.code_name(cs), rowsstr(code.stabilizers)))
+            jid = len(jobs)
+            jobs.append({'id': jid, 'code': cs, 'decoder': ds, 'errors': [es for _, es, _, _ in lst],
+                         'contexts': [c for _, _, c, _ in lst], 'hist': (h, st['order'], [pos for pos, _, _, _ in lst])})
+            results.append({'id': jid, 'results': [r for _, _, _, r in lst]})
+            meta[jid] = (st['family'], cs, ds, mode, dom)
+    ctx.rule += ('; plus (c02_reuse) OPERATION HISTORIES: one decoder object per class and parameter set (%d streams) decodes all '
+                 'small codes of its family in one stream - codes with equal n_k_d adjacent (Steane / Color666(3) / qubit-permuted '
+                 'twins with equal label, r x c / c x r of every lattice family, Toric 2x2 / RotatedToric 4x2), every syndrome of '
+                 'the codes with <= 2^%d syndromes and spread-weight errors plus the previous code\'s syndrome bit patterns on '
+                 'larger ones, context model and probability changing per item, documented rejections in between, orders '
+                 'blocks-there-and-back / interleaved / shuffled with immediate repeats, the caller overwriting every returned '
+                 'recovery; NaiveDecoder answers (fresh objects and streams) compared exactly with naive_decode'
+                 % (len(streams), ctx.pick(7, 8)))
+    ctx.extra['reuse_streams'] = len(streams)
+    ctx.extra['reuse_stream_seconds'] = {'sum': round(sum(r.get('seconds', 0) for r in sres), 1),
+                                         'max': max([r.get('seconds', 0) for r in sres] or [0])}
+    ctx.extra['reuse_decodes'] = sum(len(st['items']) for st in streams)
 
     # ---- verified checker + independent evaluation ------------------------------------------------
     req = []
     idx = []
+    nidx = {}
     for job, res in zip(jobs, results):
         family, cs, ds, mode, dom = meta[job['id']]
         code, n, cname, _ = codes[cs]
@@ -143,8 +197,38 @@ def _run(ctx, pt, rng, quick, cap, tmpdir):
             if r.get('recovery') is not None:
                 idx.append((job['id'], k, len(req)))
                 req.append('rok %s %d %s %s' % (cname, n, r['recovery'] or '-', r['syndrome']))
+            if ds[0] == 'NaiveDecoder' and n <= 10:
+                # the whole decoder is modelled (Decoders/Naive.v naive_decode): the exact answer, None, or the guard's ValueError
+                mq = ds[1][0] if ds[1] else 10
+                nidx[(job['id'], k)] = len(req)
+                req.append('naive %s %d %s %s' % (cname, n, '_' if mq is None else str(mq), r['syndrome']))
     out = zoo.model_parallel(ctx, 'dec', req, prefix=mat_lines)
     verdict = {(j, k): out[i] for j, k, i in idx}
+
+    shrunk = [0]
+
+    def viol(job, k, key, what, rep):
+        """ctx.violation; an item of a stream gets its history: a short list of earlier decodes by the same object"""
+        hist = job.get('hist')
+        if hist is not None and len(ctx.violations) < 200:     # (beyond 200 nothing is recorded any more)
+            h, order, poss = hist
+            st = streams[h]
+            pos = poss[k]
+            reject = meta[job['id']][3] == 'documented-reject'
+            shrunk[0] += 1
+            prior = cr.shrink_history(st['decoder'], st['items'], pos, reject, budget=40 if shrunk[0] <= 6 else 0,
+                                      full_check=shrunk[0] <= 6)
+            note = 'ONE decoder object decoded the `prior` items (other codes, sizes, contexts) in order, then this one'
+            if prior is None:
+                prior = list(st['items'][:pos])
+                note += '; history not shrunk (the whole stream up to the item is recorded)'
+            elif not prior:
+                note = 'fails on a fresh decoder object too (found as an item of a stream of one decoder object)'
+            rep = dict(rep, check=cr.CHECK, prior=cr.items_to_json(prior), fresh_code_object=bool(st['items'][pos][3]),
+                       history={'stream': h, 'order': order, 'index': pos, 'note': note})
+            what += ' [item %d of the %s stream of ONE %s object reused across codes; %d earlier decode(s) suffice]' % (
+                pos, order, ds_name(st['decoder']), len(prior))
+        ctx.violation(key, what, rep)
 
     kern = []
     defaults = {'PlanarCMWPMDecoder': ((), (3, 4, 't', 4)), 'NaiveDecoder': ((10,),)}
@@ -157,25 +241,33 @@ def _run(ctx, pt, rng, quick, cap, tmpdir):
                           + res['ctor_error'], {'decoder': list(ds)})
             continue
         nondefault = len(ds[1]) > 0 and ds[1] not in defaults.get(ds[0], ())
-        a = cs[1]
-        special_lattice = len(a) == 2 and (a[0] != a[1] or a == tuple(zoo.sizes(cs[0], True)[0]))
+        special_lattice = special(cs)
+        hist = job.get('hist')
         for k, r in enumerate(res['results']):
             es = job['errors'][k]
             ems, p = job['contexts'][k]
             e = np.array([int(c) for c in es])
-            rep = {'code': [cs[0], list(cs[1])], 'decoder': [ds[0], list(ds[1])], 'error': zoo.bsf_to_letters(e),
+            rep = {'code': cr.spec_to_json(cs), 'decoder': [ds[0], list(ds[1])], 'error': zoo.bsf_to_letters(e),
                    'error_model': [ems[0], [list(x) if isinstance(x, tuple) else x for x in ems[1]]],
                    'error_probability': p, 'syndrome': r['syndrome'], 'outcome': r['outcome'],
-                   'app_context': bool(job.get('app_context'))}
-            kind = '%s/%s/%s' % (ds[0], cs[0], mode)
+                   'app_context': bool(job.get('app_context')) if hist is None else hist[2][k] % 3 == 0}
+            kind = '%s%s/%s/%s' % ('' if hist is None else 'reuse:', ds[0], cs[0], mode)
             nonzero = '1' in r['syndrome']
+            if hist is not None:
+                ctx.hist['reuse-order/' + hist[1]] += 1
+            if (job['id'], k) in nidx:
+                # NaiveDecoder is modelled as a whole: its answer must be the model's, whatever the object decoded before
+                mo = out[nidx[(job['id'], k)]]
+                io = ('ERR ValueError' if r['outcome'].startswith('ERR ValueError') else '_' if r['outcome'] == 'None'
+                      else r['recovery'] if r['outcome'] == 'ok' and r.get('recovery') is not None else r['outcome'])
+                ctx.cmp('NaiveDecoder.decode vs naive_decode (Decoders/Naive.v)', '%s %s %s' % (cname, dn, r['syndrome']), io, mo)
             if mode == 'documented-reject':
                 ctx.count(None, False, kind)
                 if not (r['outcome'].startswith('ERR ValueError') or r['outcome'] == 'ok'):
-                    ctx.violation('raised', 'out-of-domain context model: expected the documented ValueError, got '
-                                  + r['outcome'], rep)
+                    viol(job, k, 'raised', 'out-of-domain call (context model without usable bias / code above max_qubits): '
+                         'expected the documented ValueError, got ' + r['outcome'], rep)
                 continue
-            key = (cname, dn, es)
+            key = (cname, dn, es) if hist is None else (cname, dn, es, 'reuse', hist[1])
             ctx.count(key, nonzero and (special_lattice or nondefault), kind,
                       {'code': cname, 'decoder': dn, 'error': rep['error'], 'context': '%s p=%r' % (ems[0], p),
                        'recovery': r.get('recovery')} if (n <= 13 and nonzero and nondefault) else None)
@@ -183,14 +275,14 @@ def _run(ctx, pt, rng, quick, cap, tmpdir):
             ctx.hist['p=%r' % p] += 1
             vkey = KNOWN_F5 if mode == 'known-F5' else None
             if r['outcome'].startswith('ERR'):
-                ctx.violation(vkey or 'raised', '%s on %s raised: %s' % (dn, cname, r['outcome']), rep)
+                viol(job, k, vkey or 'raised', '%s on %s raised: %s' % (dn, cname, r['outcome']), rep)
                 continue
             if r['outcome'] == 'None':
-                ctx.violation(vkey or 'none', '%s on %s returned None' % (dn, cname), rep)
+                viol(job, k, vkey or 'none', '%s on %s returned None' % (dn, cname), rep)
                 continue
             if r.get('recovery') is None:
-                ctx.violation(vkey or 'shape', '%s on %s returned an array of shape %s dtype %s (want 1-d integer)'
-                              % (dn, cname, r.get('shape'), r.get('dtype')), rep)
+                viol(job, k, vkey or 'shape', '%s on %s returned an array of shape %s dtype %s (want 1-d integer)'
+                     % (dn, cname, r.get('shape'), r.get('dtype')), rep)
                 continue
             rec = r['recovery']
             v = verdict[(job['id'], k)]
@@ -210,9 +302,9 @@ def _run(ctx, pt, rng, quick, cap, tmpdir):
             if v != '1' or indep != '1':
                 what = ('wrong length %d (want %d)' % (len(rec), 2 * n) if not ok_len else
                         'non-binary entries' if not ok_bin else 'recovery does not reproduce the syndrome')
-                ctx.violation(vkey or 'syndrome', '%s on %s: %s (verified checker recovery_ok = %s)' % (dn, cname, what, v), rep)
+                viol(job, k, vkey or 'syndrome', '%s on %s: %s (verified checker recovery_ok = %s)' % (dn, cname, what, v), rep)
             if r.get('dtype', '').startswith(('float', 'bool', 'complex', 'object')):
-                ctx.violation(vkey or 'shape', '%s on %s returned dtype %s' % (dn, cname, r['dtype']), rep)
+                viol(job, k, vkey or 'shape', '%s on %s returned dtype %s' % (dn, cname, r['dtype']), rep)
             if len(kern) < 60 and n <= 13 and nonzero and v == '1' and (job['id'] + k) % 7 == 0:
                 kern.append((cs, rec, r['syndrome']))
     ctx.extra['decodes'] = ctx.evals
@@ -242,12 +334,21 @@ def _run(ctx, pt, rng, quick, cap, tmpdir):
 _run_main = run
 
 
+def _timed(ctx, name, fn):
+    import time
+    t0 = time.time()
+    try:
+        return fn(ctx)
+    finally:
+        ctx.extra.setdefault('phase_seconds', {})[name] = round(time.time() - t0, 1)
+
+
 def run(ctx):   # noqa: F811
-    _run_main(ctx)
+    _timed(ctx, 'main+reuse', _run_main)
     from harness import c02_extra
     import logging
     logging.getLogger('qecsim').setLevel(logging.CRITICAL)
-    c02_extra.run(ctx)
+    _timed(ctx, 'extra', c02_extra.run)
 
 def replay(path):
     """re-run the recorded decode and re-apply the verified checker"""
@@ -260,12 +361,18 @@ def replay(path):
     if r.get('check') == 'c02_sample':     # sample-recovery / MPS decode cases
         from harness import c02_sample
         return c02_sample.replay_dict(r)
+    if r.get('check') == 'c02_reuse':      # an item of a stream decoded by ONE decoder object (history in `prior`)
+        from harness import c02_reuse
+        return c02_reuse.replay_dict(r)
     if r.get('check') == 'c02_dense':      # a syndrome that was handed to decode directly
         from harness import c02_dense
         return c02_dense.replay_one(r)
     cs = (r['code'][0], tuple(r['code'][1]))
     ds = (r['decoder'][0], tuple(r['decoder'][1]))
     ems = (r['error_model'][0], tuple(tuple(x) if isinstance(x, list) else x for x in r['error_model'][1]))
+    if cs[0] == 'twin':
+        print('twin codes are only decoded in streams (c02_reuse)')
+        return 0
     job = {'id': 0, 'code': cs, 'decoder': ds, 'errors': [bitstr(zoo.letters_to_bsf(r['error']))],
            'contexts': [(ems, r['error_probability'])], 'app_context': r.get('app_context', False)}
     zoo._init_worker()
@@ -290,7 +397,7 @@ def run(ctx):   # noqa: F811
     """... then the MWPM model correspondence (Decoders/PlanarMwpm.v, ToricMwpm.v; engine build/qmodel_mwpm)"""
     _run_with_extra(ctx)
     from harness import c02_mwpm
-    c02_mwpm.run(ctx)
+    _timed(ctx, 'mwpm', c02_mwpm.run)
 
 
 _run_with_mwpm = run
@@ -301,7 +408,7 @@ def run(ctx):   # noqa: F811
     (harness/c02_dense.py: matching-family decoders; graph / node set / recovery against MwpmGraph.v, PlanarMwpm.v, ToricMwpm.v)"""
     _run_with_mwpm(ctx)
     from harness import c02_dense
-    c02_dense.run(ctx)
+    _timed(ctx, 'dense', c02_dense.run)
     ctx.rule += ('; plus (c02_dense) matching-family decoders on lattices up to 16x16 (thorough 18x18) handed VALID syndromes directly: '
                  '2-4 separated clusters of 9..15 defects, dense random, far pairs, full lines, all-ones; plus (c02_extra.run_grid) both '
                  'symmetry decoders on the grid eta in 1e-300..1e300 x error_probability in 5e-324..1-2^-53')
@@ -315,7 +422,7 @@ def run(ctx):   # noqa: F811
     Decoders/SampleRecovery.v / SampleRecoveryColor.v (engine build/qmodel_samp; harness/c02_sample.py)"""
     _run_with_dense(ctx)
     from harness import c02_sample
-    c02_sample.run_extra(ctx)
+    _timed(ctx, 'sample', c02_sample.run_extra)
     ctx.rule += ('; plus (c02_sample) sample_recovery of the five tensor-network decoder classes on every syndrome of small '
                  'codes and unit / dense / sparse / reachable syndromes of larger ones, and decode() = sample xor one of the '
                  'four logical classes')
